@@ -799,6 +799,9 @@ func (s *side) send(i int, ex exchange) bool {
 		err = s.writeMsg(opOf(ex), p)
 	case exWriter:
 		w := wsutil.GetWriter(s.conn, s.state, opOf(ex), ex.BufSize)
+		// (How the message will be cut into frames follows from the room the
+		// writer offers: part of what the session observes.)
+		s.tr.add("step %d: GetWriter(%d) offers %d bytes per frame", i, ex.BufSize, w.Size())
 		_, err = w.Write(p)
 		if err == nil {
 			err = w.Flush()
@@ -891,6 +894,7 @@ func (s *side) send(i int, ex exchange) bool {
 		var ms wsflate.MessageState
 		ms.SetCompressed(true)
 		w := wsutil.GetWriter(s.conn, s.state|ws.StateExtended, opOf(ex), ex.BufSize)
+		s.tr.add("step %d: GetWriter(%d) offers %d bytes per frame", i, ex.BufSize, w.Size())
 		w.SetExtensions(&ms)
 		fw := wsflate.NewWriter(w, flateCompressor)
 		if s.sc.Seed%3 == 0 {
